@@ -382,6 +382,11 @@ def run(ctx):
     ctx.guard(rule_r4)
     ctx.guard(rule_r6)
     ctx.guard(rule_r8)
+    from . import c11
+    ctx.guard(c11.rule_r14)          # the hop word is compared as the unsigned value it is
+    for rr in ctx.rules:
+        if rr.id == "C11.R14":
+            rr.id = "C08.R9"
     from . import c09
     ctx.guard(c09.rule_r8)
     for rr in ctx.rules:
